@@ -1,0 +1,101 @@
+//go:build verif
+
+package go_clipper2
+
+// Verification hooks (build tag "verif"). Observers and accessors only: nothing in
+// this file changes the behaviour of the library. With the tag off the no-op
+// twins in verif_hooks_off.go are compiled instead.
+
+// VerifEvent is one record of a place where the sweep intentionally discards or
+// bridges geometry (self-intersection repair dropping a loop, joining two edges).
+type VerifEvent struct {
+	Kind string
+	Pts  Path64
+}
+
+// verifRec is nil unless a (single-threaded) harness asked for recording.
+var verifRec *[]VerifEvent
+
+func VerifStartRecording() {
+	s := make([]VerifEvent, 0, 8)
+	verifRec = &s
+}
+
+func VerifStopRecording() []VerifEvent {
+	if verifRec == nil {
+		return nil
+	}
+	r := *verifRec
+	verifRec = nil
+	return r
+}
+
+func verifEvent(kind string, pts ...Point64) {
+	if verifRec == nil {
+		return
+	}
+	*verifRec = append(*verifRec, VerifEvent{Kind: kind, Pts: append(Path64(nil), pts...)})
+}
+
+func verifEventLoop(kind string, op *OutPt) {
+	if verifRec == nil || op == nil {
+		return
+	}
+	var p Path64
+	o := op
+	for i := 0; i < 1<<20; i++ {
+		p = append(p, o.pt)
+		o = o.next
+		if o == op || o == nil {
+			break
+		}
+	}
+	*verifRec = append(*verifRec, VerifEvent{Kind: kind, Pts: p})
+}
+
+func verifLastPt(ae *Active) Point64 {
+	if op := getLastOp(ae); op != nil {
+		return op.pt
+	}
+	return ae.bot
+}
+
+// VerifSetOptions64 sets the engine options that only ClipperOffset can set today.
+func VerifSetOptions64(c *clipper64, preserveCollinear, reverseSolution bool) {
+	c.preserveCollinear = preserveCollinear
+	c.reverseSolution = reverseSolution
+}
+
+func VerifSetOptionsD(c *clipperD, preserveCollinear, reverseSolution bool) {
+	c.preserveCollinear = preserveCollinear
+	c.reverseSolution = reverseSolution
+}
+
+// Exported aliases of unexported predicates, for direct comparison with exact arithmetic.
+
+func VerifIsCollinear(pt1, sharedPt, pt2 Point64) bool { return isCollinear(pt1, sharedPt, pt2) }
+
+func VerifProductsAreEqual(a, b, c, d int64) bool { return productsAreEqual(a, b, c, d) }
+
+func VerifSegsIntersect(a, b, c, d Point64, inclusive bool) bool {
+	return segsIntersect(a, b, c, d, inclusive)
+}
+
+func VerifGetSegmentIntersectPt(a, b, c, d Point64) (Point64, bool) {
+	return getSegmentIntersectPt(a, b, c, d)
+}
+
+func VerifGetClosestPtOnSegment(offPt, seg1, seg2 Point64) Point64 {
+	return getClosestPtOnSegment(offPt, seg1, seg2)
+}
+
+func VerifGetBounds(path Path64) Rect64 { return getBounds(path) }
+
+// VerifRect64Fields exposes the unexported fields of a Rect64.
+func VerifRect64Fields(r Rect64) (left, top, right, bottom int64) {
+	return r.left, r.top, r.right, r.bottom
+}
+
+func VerifRectDFields(r RectD) (left, top, right, bottom float64) {
+	return r.left, r.top, r.right, r.bottom
+}
